@@ -121,8 +121,9 @@ def compare(op, a, b):
 
 def mid_statement(target, start, n, source, same_string=False):
     """
-    MID$(target, start[, n]) = source.  Returns new target value (same length) or error, or
-    ('either', [...]) where the manual does not decide.
+    MID$(target, start[, n]) = source.  Returns new target value (same length) or error.
+    With n = 0 nothing is replaced and no error is raised whatever the start position (also on an empty
+    target); otherwise start must lie in 1..LEN(target).
     same_string: the source expression is the target variable itself (the characters are then
     moved one by one from left to right inside the one string, as GW-BASIC does).
     """
@@ -131,10 +132,8 @@ def mid_statement(target, start, n, source, same_string=False):
     count = 255 if n is None else n
     in_range = 1 <= start <= len(target)
     if count == 0:
-        # nothing to replace: whether the start position is still checked is not pinned
-        if in_range:
-            return ('ok', target)
-        return ('either', [('ok', target), ('err', IFC)])
+        # a length of 0 replaces nothing: the statement is a no-op and the start position is not looked at
+        return ('ok', target)
     if not in_range:
         return ('err', IFC)
     count = min(count, len(source), len(target) - start + 1)
